@@ -1,11 +1,12 @@
 ------------------------------ MODULE JsonDoc ------------------------------
-(* JSON documents as trees, their reference encoding, and what the json / unpack stages expose (C06).
+(* JSON documents as trees (path selectors are [t |-> "key" | "idx", key, i] records)
+   JSON documents as trees, their reference encoding, and what the json / unpack stages expose (C06).
    Anchors: internal/logql/logqlengine/json.go, unpack.go, jsonexpr/*.go.
    A value is  [k |-> "str", s]  [k |-> "num", txt]  [k |-> "bool", b]  [k |-> "null"]
                [k |-> "obj", fields |-> <<<<key, value>>, ...>>]  [k |-> "arr", items |-> <<value, ...>>]
    "num".txt is the number as written: an integer or a plain decimal in canonical form (no exponent, no leading
    zeros, no trailing zeros in the fraction), so that its written form is also what Go prints for it. *)
-EXTENDS Integers, Sequences, Bytes, Labels
+EXTENDS Integers, Sequences, FiniteSets, Bytes, Labels
 
 QUOTE == 34
 BSL == 92
@@ -32,15 +33,16 @@ ScalarText(v) == CASE v.k = "str" -> v.s [] v.k = "num" -> v.txt
 
 \* ---- path expressions: a sequence of [t |-> "key", key] / [t |-> "idx", i] selectors (i zero based)
 RECURSIVE Walk(_, _)
-Walk(v, path) == IF path = <<>> THEN [found |-> TRUE, v |-> v]
+\* dup: a key on the path occurs more than once in its object - which occurrence counts is left open
+Walk(v, path) == IF path = <<>> THEN [found |-> TRUE, v |-> v, dup |-> FALSE]
                  ELSE LET sel == Head(path) IN
                       IF sel.t = "key" /\ v.k = "obj"
                         THEN LET hits == {i \in DOMAIN v.fields : v.fields[i][1] = sel.key} IN
-                             IF hits = {} THEN [found |-> FALSE, v |-> v]
-                             \* (duplicate keys on a path are avoided by the cases)
-                             ELSE Walk(v.fields[CHOOSE i \in hits : \A j \in hits : j <= i][2], Tail(path))
+                             IF hits = {} THEN [found |-> FALSE, v |-> v, dup |-> FALSE]
+                             ELSE LET w == Walk(v.fields[CHOOSE i \in hits : \A j \in hits : j <= i][2], Tail(path))
+                                  IN [found |-> w.found, v |-> w.v, dup |-> w.dup \/ Cardinality(hits) > 1]
                       ELSE IF sel.t = "idx" /\ v.k = "arr" /\ sel.i + 1 <= Len(v.items) THEN Walk(v.items[sel.i + 1], Tail(path))
-                      ELSE [found |-> FALSE, v |-> v]
+                      ELSE [found |-> FALSE, v |-> v, dup |-> FALSE]
 \* rendering of a path the way it is written in a query:  a.b[0]["k y"]
 IsIdent(s) == ValidName(s)
 RECURSIVE PathText(_, _)
